@@ -425,9 +425,7 @@ Qed.
 Theorem C03_ok_gen m src inc o out_ :
   wf m = true -> gen m src inc o = Ok out_ -> C03_ok m out_ = true.
 Proof.
-  unfold wf. intros Hwf Hgen.
-  apply andb_true_iff in Hwf as [Hwf Hnames]. apply andb_true_iff in Hwf as [Hwf _].
-  apply andb_true_iff in Hwf as [Htypes Hcalls].
+  intros Hwf Hgen. destruct (wf_proj m Hwf) as (Htypes & Hcalls & _ & Hnames & _).
   destruct (gen_inv _ _ _ _ _ Hgen) as [bgd pc Hbgd _ _ Hbgm _ _ _ _ _ _ _ _ Hpc Hpcs _ _ _].
   unfold C03_ok. apply andb_true_iff. split.
   - (* layout entries *)
